@@ -163,16 +163,17 @@ C18_StaysSuspended_A ==
      (st[s].status = "SUSPENDED" /\ st'[s].status # "SUSPENDED") => lbl'.name \in {"SignalDeliver", "CancelStage", "JumpApply"}
 C18_StaysSuspended == [][C18_StaysSuspended_A]_vars
 RECURSIVE SumBuf(_)
-SumBuf(S) == IF S = {} THEN 0 ELSE LET s == CHOOSE x \in S : TRUE IN st[s].buf + SumBuf(S \ {s})
+SumBuf(S) == IF S = {} THEN 0 ELSE LET s == CHOOSE x \in S : TRUE IN Len(st[s].buf) + SumBuf(S \ {s})
 PendingSignals == Cardinality({m \in q : m.typ = "SignalStage" /\ m.pers /\ m.id \notin done})
 C18_NeverLost == gh.sent = gh.consumed + SumBuf(DOMAIN st) + PendingSignals
-C18_NotSittingOnSignal == Quiescent => \A s \in DOMAIN st : st[s].status = "SUSPENDED" => st[s].buf = 0
+C18_NotSittingOnSignal == Quiescent => \A s \in DOMAIN st : st[s].status = "SUSPENDED" => st[s].buf = <<>>
+C18_ConsumedOnce == \A i, j \in DOMAIN gh.consumedNames : i # j => gh.consumedNames[i] # gh.consumedNames[j]
 C18_ResumeOncePerSignal == gh.resumes <= cnt.signals /\ gh.consumed <= gh.sent
 C18_TransientNoEffect_A == lbl'.name = "SignalDrop" => (st' = st /\ tk' = tk)
 C18_TransientNoEffect == [][C18_TransientNoEffect_A]_vars
 C18_SawSignalOnlyIfDelivered ==
   \A t \in AllTasks : P.beh[t].k = "suspend" =>
-     Cardinality({i \in DOMAIN ledger[t] : ledger[t][i].sig}) <= gh.resumes * (gh.rearms[StageOf(t)] + 1) + cnt.crashes
+     Cardinality({ledger[t][i].sig : i \in DOMAIN ledger[t]} \ {""}) <= gh.resumes * (gh.rearms[StageOf(t)] + 1) + cnt.crashes
 -----------------------------------------------------------------------------
 (* dispatch by name: lets a run evaluate exactly the formulas named in CheckProps (Program.tla) *)
 SP(n) ==
@@ -199,6 +200,7 @@ SP(n) ==
     [] n = "C11_MutexWaiterRuns" -> C11_MutexWaiterRuns
     [] n = "C18_NeverLost" -> C18_NeverLost
     [] n = "C18_NotSittingOnSignal" -> C18_NotSittingOnSignal
+    [] n = "C18_ConsumedOnce" -> C18_ConsumedOnce
     [] n = "C18_ResumeOncePerSignal" -> C18_ResumeOncePerSignal
     [] n = "C18_SawSignalOnlyIfDelivered" -> C18_SawSignalOnlyIfDelivered
     [] OTHER -> TRUE
@@ -217,7 +219,7 @@ AP(n) ==
     [] n = "C18_StaysSuspended" -> C18_StaysSuspended_A
     [] n = "C18_TransientNoEffect" -> C18_TransientNoEffect_A
     [] OTHER -> TRUE
-StatePropNames  == {"C01_SameOutcome", "C01_ExecBound", "C01_NothingStranded", "C02_SameOutcome", "C02_StartOnce", "C02_ExecExact", "C05_QuietMeansDone", "C05_SucceededIsHonest", "C05_FailureReported", "C05_NoRunningInFinished", "C09_NoRehandle", "C10_SweepHarmless", "C10_NoExtraExec", "C14_Bounded", "C15_JumpBudget", "C15_OncePerIteration", "C17_CancelCompletes", "C11_Mutex", "C11_ChoiceAtMostOne", "C11_ChoiceLosersCanceled", "C11_MutexWaiterRuns", "C18_NeverLost", "C18_NotSittingOnSignal", "C18_ResumeOncePerSignal", "C18_SawSignalOnlyIfDelivered"}
+StatePropNames  == {"C01_SameOutcome", "C01_ExecBound", "C01_NothingStranded", "C02_SameOutcome", "C02_StartOnce", "C02_ExecExact", "C05_QuietMeansDone", "C05_SucceededIsHonest", "C05_FailureReported", "C05_NoRunningInFinished", "C09_NoRehandle", "C10_SweepHarmless", "C10_NoExtraExec", "C14_Bounded", "C15_JumpBudget", "C15_OncePerIteration", "C17_CancelCompletes", "C11_Mutex", "C11_ChoiceAtMostOne", "C11_ChoiceLosersCanceled", "C11_MutexWaiterRuns", "C18_NeverLost", "C18_NotSittingOnSignal", "C18_ConsumedOnce", "C18_ResumeOncePerSignal", "C18_SawSignalOnlyIfDelivered"}
 ActionPropNames == {"C02_NoReexec", "C03_StartsOnlyWhenAllowed", "C03_ExecOnlyStarted", "C03_NoRunBelowHalt", "C06_Legal", "C06_CompletedIsFinal", "C14_ProgressKept", "C14_ProgressExact", "C15_RearmExact", "C17_NoStartAfterCancel", "C11_ClaimsOfLiveKept", "C18_StaysSuspended", "C18_TransientNoEffect"}
 FailedState  == {n \in CheckProps \cap StatePropNames : ~SP(n)}
 =============================================================================
